@@ -293,7 +293,8 @@ class C20(PropBase):
                 "given twice is a usage error (c20_parsed_values_validated, c20_single_options_at_most_once); the manual's item-by-item "
                 "reading of a command line (--flag, --name=value, --name value, positional word; any order and mix of forms) is exactly "
                 "what the tokenizer computes (c20_manual_reading_is_parsed, c20_eq_form_same_as_space_form, "
-                "c20_after_dashdash_positional); help / version take effect where they stand; an unknown option, a repeated flag / "
+                "c20_after_dashdash_positional) and main() runs on exactly the flag record of that reading (c20_argv_to_flags), the symbol "
+                "paths / URLs reach the supplier in command-line order (c20_symbol_arguments_in_order, c20_argv_symbol_sources); help / version take effect where they stand; an unknown option, a repeated flag / "
                 "single-valued option, a refused value and EVERY near-miss spelling of a --features value are usage errors where they "
                 "stand (c20_help_where_it_stands, c20_unknown_option_rejected, c20_repeated_option_rejected, c20_invalid_value_rejected, "
                 "c20_features_near_miss_rejected); at most one diagnostic per run, the logger's fatal line has exactly three causes "
